@@ -456,6 +456,15 @@ def lookup_listener_obligations(ctx: Any, R: str) -> List[Ob]:
     deferred_removers = [m.name for m in zc.methods.values() if 'remove_listener' in m.name and any(isinstance(x, ast.Call) and call_name(x) in ('call_soon_threadsafe', 'call_soon', 'run_coroutine_threadsafe') for x in walk_local_ordered(m.node))]
     late = [x for x in walk_local_ordered(f.node) if isinstance(x, ast.Call) and call_name(x) in deferred_removers]
     obs.append(ob(R, f, late[0] if late else 'zc.async_remove_listener(self)', 'the removal happens before the lookup returns (not scheduled for a later loop iteration)', not late, f'`{norm(late[0])}` only schedules the removal' if late else ''))
+    # ... and removing means removing: the chain from the public call ends in the listener set losing the listener
+    zr = zc.methods.get('async_remove_listener')
+    rmr = prog.func('zeroconf._handlers.record_manager.RecordManager.async_remove_listener')
+    fwd = [x for x in walk_local_ordered(zr.node) if isinstance(x, ast.Call) and call_name(x) == 'async_remove_listener' and 'record_manager' in norm(x.func)] if zr is not None else []
+    drops = [x for x in walk_local_ordered(rmr.node) if isinstance(x, ast.Call) and call_name(x) in ('remove', 'discard') and isinstance(x.func, ast.Attribute) and self_attr(x.func.value, rmr.params[0]) == 'listeners' and x.args and norm(x.args[0]) == rmr.params[1]]
+    rc = cfg_of(rmr.node)
+    drop_nodes = [n for n in rc.nodes if any(any(y is d for d in drops) for y in n.calls())]
+    skip = rc.path_avoiding(rc.entry, lambda n: n is rc.exit, lambda n: n in drop_nodes) if drop_nodes else [rc.entry]
+    obs.append(ob(R, rmr, drops[0] if drops else 'self.listeners.remove(listener)', 'removing a record listener takes it out of the listener set on every path (a removed listener -- a finished lookup, a cancelled browser -- is never called again)', bool(fwd) and bool(drops) and skip is None, '' if drops else 'the listener set is not touched'))
     return obs
 
 
